@@ -115,7 +115,7 @@ class Puppet:
                                                                     'netmask': '255.255.255.0'}}}}}
         if meth == 'get_instance_info':
             if src is not None:
-                self.last_answers[src.nick] = {'sees': self.sees_caller, 'mismatch': False}
+                self.last_answers[src.nick] = {'sees': self.sees_caller, 'mismatch': False, 't_us': self.sim.now_us}
             return [{'identifier': params[0], 'statecode': self.sees_caller}]
         if meth == 'get_strategies':
             with self.sim.enter(src):
